@@ -418,6 +418,84 @@ class HavocSet:
 import numpy as np
 
 
+class Row:
+    """one row of a frame (what iloc[i] returns): (label, value) pairs; labels may repeat after a concat"""
+
+    def __init__(self, pairs):
+        self.pairs = list(pairs)
+
+    def keys(self):
+        return [k for k, _ in self.pairs]
+
+    def __iter__(self):
+        return iter(self.keys())
+
+    def __len__(self):
+        return len(self.pairs)
+
+    def __contains__(self, label):
+        return any(k == label for k, _ in self.pairs)
+
+    def __getitem__(self, label):
+        hits = [v for k, v in self.pairs if k == label]
+        if not hits:
+            raise KeyError(label)
+        return hits[0] if len(hits) == 1 else Row([(label, v) for v in hits])   # pandas: a sub-series for a repeated label
+
+    def get(self, label, default=None):
+        return self[label] if label in self else default
+
+    def items(self):
+        return list(self.pairs)
+
+
+class Series:
+    """stand-in for pandas.Series as far as building a column goes"""
+
+    def __init__(self, data=None, index=None, name=None, **k):
+        if k:
+            raise StubLimit("Series(%r) not modelled" % (sorted(k),))
+        self.values = data.copy() if isinstance(data, np.ndarray) else list(data)
+        if index is not None and len(index) != len(self.values):
+            raise ValueError("Length of values (%d) does not match length of index (%d)" % (len(self.values), len(index)))
+        self.name = name
+
+    def __len__(self):
+        return len(self.values)
+
+    def __getitem__(self, i):
+        return self.values[i]
+
+    def __getattr__(self, n):
+        raise StubLimit("Series.%s not modelled" % n)
+
+
+def _concat(objs, axis=0, **k):
+    """pandas.concat(..., axis=1) of frames/series over the same default index: the columns side by side, in order;
+    NOTHING is overwritten - a label that occurs twice is kept twice"""
+    if axis not in (1, "columns") or k or not objs or not isinstance(objs[0], Frame):
+        raise StubLimit("concat(axis=%r, %r) not modelled" % (axis, sorted(k)))
+    out = objs[0].copy()
+    for o in objs[1:]:
+        if isinstance(o, Series):
+            new = [(o.name, o.values)]
+        elif isinstance(o, Frame):
+            new = [(c, o.cols[c]) for c in o.cols] + list(o.extra)
+        else:
+            raise StubLimit("concat of %s not modelled" % type(o).__name__)
+        for label, col in new:
+            if out.n is not None and len(col) != out.n:
+                raise StubLimit("concat of columns of different lengths (index alignment) not modelled")
+            col = col.copy() if isinstance(col, np.ndarray) else list(col)
+            if label in out.cols:
+                out.extra.append((label, col))
+            else:
+                if out.n is None:
+                    out.n = len(col)
+                out.cols[label] = col
+    return out
+
+
 class Frame:
     """stand-in for pandas.DataFrame (contract above)"""
     made = []
@@ -426,12 +504,15 @@ class Frame:
         if a or k or not isinstance(data, dict):
             raise StubLimit("DataFrame(%r) not modelled" % (type(data).__name__,))
         self.cols = {}
+        self.extra = []          # further columns whose label repeats one in `cols` (only concat creates them)
         self.n = None
         Frame.made.append(self)
         for name, v in data.items():
             self[name] = v
 
     def __setitem__(self, name, value):
+        if any(name == k for k, _ in self.extra):
+            raise StubLimit("assignment to a repeated label not modelled")
         if isinstance(value, np.ndarray):
             if value.ndim != 1:
                 raise ValueError("column must be 1-dimensional")
@@ -451,6 +532,8 @@ class Frame:
         self.cols[name] = col
 
     def __getitem__(self, name):
+        if self.extra and (isinstance(name, list) or any(name == k for k, _ in self.extra)):
+            raise StubLimit("selection from a frame with repeated labels not modelled")
         if isinstance(name, list):              # column selection: a NEW frame with exactly those columns, in that order
             out = Frame({})
             for c in name:
@@ -467,7 +550,11 @@ class Frame:
 
     @property
     def columns(self):
-        return list(self.cols)
+        return list(self.cols) + [k for k, _ in self.extra]
+
+    @property
+    def index(self):
+        return range(self.n or 0)
 
     def assign(self, **kwargs):                 # a NEW frame with the columns added / replaced; the receiver is unchanged
         out = self[list(self.cols)]
@@ -476,7 +563,13 @@ class Frame:
         return out
 
     def copy(self, deep=True):
-        return self[list(self.cols)]
+        saved, self.extra = self.extra, []
+        try:
+            out = self[list(self.cols)]
+        finally:
+            self.extra = saved
+        out.extra = [(k, v.copy() if isinstance(v, np.ndarray) else list(v)) for k, v in saved]
+        return out
 
     def __contains__(self, name):
         return name in self.cols
@@ -490,8 +583,9 @@ class Frame:
         for c in columns:
             if c not in self.cols:
                 raise KeyError(c)
-        for c in columns:
+        for c in columns:                       # drop removes EVERY column carrying the label
             del self.cols[c]
+            self.extra = [(k, v) for k, v in self.extra if k != c]
 
     @property
     def iloc(self):
@@ -499,7 +593,7 @@ class Frame:
 
         class _I:
             def __getitem__(self, i):
-                return {c: v[i] for c, v in frame.cols.items()}
+                return Row([(c, v[i]) for c, v in frame.cols.items()] + [(c, v[i]) for c, v in frame.extra])
         return _I()
 
     def __getattr__(self, n):
@@ -508,7 +602,8 @@ class Frame:
 
 class _FakePandas:
     DataFrame = Frame
-    Series = dict
+    Series = Series
+    concat = staticmethod(_concat)
 
     def __getattr__(self, n):
         raise StubLimit("pandas.%s not modelled" % n)
